@@ -15,10 +15,17 @@ for f in sorted(glob.glob(os.path.join(ROOT, "seeded", "*", "meta.json"))):
     for p, r in m.get("checks_run", {}).items():
         if r.get("exit") == 1:
             sigs.append("%s: `%s`" % (p, (r.get("first_signature") or "")[:70].replace("|", "/")))
-    rows.append("| %s | %s | %s | %s |" % (name, (m.get("summary") or "")[:150].replace("|", "/").replace("\n", " "),
-                                         (m.get("needs_to_manifest") or "")[:120].replace("|", "/").replace("\n", " "),
-                                         "; ".join(sigs) if sigs else "**missed** by " + ", ".join(m.get("checks_run", {}))))
-table = "| change | what it does | needs | caught by (first signature) |\n|---|---|---|---|\n" + "\n".join(rows)
+    missed_before = set()
+    for run in m.get("earlier_runs", []):
+        for p, r in (run.get("checks_run") or {}).items():
+            if r.get("exit") == 0:
+                missed_before.add(p)
+    missed_now = sorted(p for p, r in m.get("checks_run", {}).items() if r.get("exit") == 0)
+    rows.append("| %s | %s | %s | %s | %s |" % (name, (m.get("summary") or "")[:150].replace("|", "/").replace("\n", " "),
+                                              (m.get("needs_to_manifest") or "")[:120].replace("|", "/").replace("\n", " "),
+                                              "; ".join(sigs) if sigs else "**missed** by " + ", ".join(m.get("checks_run", {})),
+                                              ", ".join(sorted(missed_before)) + (" (still: %s)" % ", ".join(missed_now) if missed_now and sigs else "")))
+table = "| change | what it does | needs | caught by (first signature) | missed by, before strengthening |\n|---|---|---|---|---|\n" + "\n".join(rows)
 path = os.path.join(ROOT, "DESIGN.md")
 s = open(path).read()
 if "@@SEEDED_TABLE@@" in s:
